@@ -379,7 +379,10 @@ where
         } else {
             let mut iter = self.bytes_mut_iter();
             let _ = iter.nth(len - 1);
-            L::max_value().emplace(iter.data.unwrap()).unwrap();
+            // What follows the first `len` items (if anything) becomes the terminator.
+            if let Some(data) = iter.data {
+                L::zero().emplace(data).unwrap();
+            }
         }
     }
 }
